@@ -34,7 +34,10 @@ func genC18(r *R, n int, tier string, out *Out) {
 		if boosted() {
 			ln = 20 + r.Intn(100)
 		}
-		if r.chance(0.03) {
+		if i < 10 {
+			ln = []int{1025, 1030, 4101, 1026, 1027, 4102, 1500, 1023, 2049, 257}[i]
+			mode = []int{0, 2, 4, 6, 0, 2, 4, 6, 0, 2}[i]
+		} else if r.chance(0.03) {
 			ln = r.stressSize() // the sizes at which an implementation may switch strategy (chunking, pooling, unrolling)
 		}
 		tag := ""
@@ -103,7 +106,7 @@ func genC18(r *R, n int, tier string, out *Out) {
 		}
 		// on long lists the extreme element often sits in one of the last three positions (a fold that splits the work by size may
 		// never look at the tail)
-		if len(elems) >= 40 && r.chance(0.6) {
+		if len(elems) >= 40 && (i < 10 || r.chance(0.6)) {
 			k := len(elems) - 1 - r.Intn(3)
 			switch r.Intn(4) {
 			case 0:
